@@ -105,7 +105,7 @@ func Generate(ctx context.Context, wd string, env []string, patterns []string, o
 		}
 		copyNonInjectorDecls(g, injectorFiles, pkg.TypesInfo)
 		goSrc := g.frame(opts.Tags)
-		if len(opts.Header) > 0 {
+		if len(goSrc) > 0 && len(opts.Header) > 0 {
 			goSrc = append(opts.Header, goSrc...)
 		}
 		fmtSrc, err := format.Source(goSrc)
